@@ -349,6 +349,60 @@ Judge(pre, S, op, ret, post, fwd, bwd) ==
       tv  == IF sv = {} /\ ~TraversalOK(post, fwd, bwd) THEN {"traversal"} ELSE {}
   IN dv \cup sv \cup tv
 
+(* ------------------------------------------------------------------------
+   PART 3 -- the same verdict in one pass over the tree.
+   Evaluating PART 2 literally costs TLC about 25 ms per 31-node heap (each
+   clause walks the tree again); millions of heaps need it cheaper.  Scan
+   visits every linked node once.  MC_Avl checks FastStructViols = StructViols
+   and FastJudge = Judge on every result it explores and on every single-field
+   corruption of every small tree (Mode = "corrupt"), so PART 2 remains the
+   definition and PART 3 is only a faster way to evaluate it.
+
+   Scan(t, n, par): n is visited as a child of par (NULL for the root).  The
+   visit fails unless parent[n] = par; a node can therefore be visited
+   successfully only from the one node its parent field names, so the
+   recursion terminates on any heap whatsoever (at most one successful visit
+   per node, at most two failed ones per successful one). *)
+ScanNull == [ok |-> TRUE, h |-> 0, hx |-> TRUE, bal |-> TRUE, seq |-> <<>>]
+ScanBad  == [ok |-> FALSE, h |-> 0, hx |-> TRUE, bal |-> TRUE, seq |-> <<>>]
+RECURSIVE Scan(_, _, _)
+Scan(t, n, par) ==
+  IF n = NULL THEN ScanNull
+  ELSE IF ~IsId(t, n) THEN ScanBad
+  ELSE IF t.parent[n] # par THEN ScanBad
+  ELSE IF t.left[n] # NULL /\ t.left[n] = t.right[n] THEN ScanBad
+  ELSE LET a == Scan(t, t.left[n], n)
+           b == Scan(t, t.right[n], n)
+       IN IF ~(a.ok /\ b.ok) THEN ScanBad
+          ELSE LET h == 1 + (IF a.h > b.h THEN a.h ELSE b.h)
+               IN [ok  |-> TRUE, h |-> h,
+                   hx  |-> a.hx /\ b.hx /\ t.height[n] = h,
+                   bal |-> a.bal /\ b.bal /\ (b.h - a.h) \in {-1, 0, 1},
+                   seq |-> a.seq \o <<n>> \o b.seq]
+
+Range(s) == {s[i] : i \in 1..Len(s)}
+SeqOrdered(t, s) == \A i \in 1..(Len(s) - 1) : Compare(t, s[i], s[i + 1]) < 0
+
+ViolsOfScan(t, S, sc) ==
+  IF ~sc.ok THEN {"parent"}
+  ELSE (IF Range(sc.seq) = S THEN {} ELSE {"set"})
+       \cup (IF SeqOrdered(t, sc.seq) THEN {} ELSE {"order"})
+       \cup (IF sc.hx THEN {} ELSE {"height"})
+       \cup (IF sc.bal THEN {} ELSE {"balance"})
+FastStructViols(t, S) == ViolsOfScan(t, S, Scan(t, t.root, NULL))
+
+FastJudgeScan(pre, S, op, ret, post, fwd, bwd, sc) ==
+  LET dup == IsDup(pre, S, op)
+      dv  == IF op.kind = "ins" /\ ( (dup /\ (ret # -1 \/ post # pre))
+                                  \/ (~dup /\ ret # 0) )
+             THEN {"dup"} ELSE {}
+      sv  == ViolsOfScan(post, SetAfter(pre, S, op), sc)
+      tv  == IF sv = {} /\ ~(fwd = sc.seq /\ bwd = Reverse(sc.seq))
+             THEN {"traversal"} ELSE {}
+  IN dv \cup sv \cup tv
+FastJudge(pre, S, op, ret, post, fwd, bwd) ==
+  FastJudgeScan(pre, S, op, ret, post, fwd, bwd, Scan(post, post.root, NULL))
+
 (* links of how many nodes differ (evidence: > 2 means that a rotation or a
    victim replacement took place) *)
 LinksChanged(a, b) ==
